@@ -4,10 +4,16 @@
       attrs : {blocks, op, cat, pkg, ver, rev, slot, subslot, slotop, repo, use}   what the parser read
       rendered,                      str(atom) as code points
       rt_ok, rt_equal,               atom(str(atom), eapi) parsed / compares equal (both ways)
-      m1, m2}                        match vectors of the atom / the re-parsed atom on a package universe
+      m1, m2,                        match vectors of the atom / the re-parsed atom on a package universe
+      kls_accepted, kls_equal}       the same text through the EAPI object's own atom class (EAPI.atom_kls, what
+                                     dependency strings of ebuilds and profile files are parsed with): accepted,
+                                     and equal to the atom built with atom(text, eapi=...); for "no EAPI" there
+                                     is no such class and the two fields repeat accepted / TRUE
    (attrs ... m2 are dummies when the string was not accepted).
    Clauses: AcceptedInvalid_<why> , RejectedValid , ParsedAttrs_<field> , Render_faithful ,
-            Roundtrip_reparse , Roundtrip_equal , Roundtrip_matches ; "Unspecified" = not judged. *)
+            Roundtrip_reparse , Roundtrip_equal , Roundtrip_matches ,
+            AcceptedInvalidByEapiClass_<why> , RejectedValidByEapiClass , EapiClass_differs ;
+            "Unspecified" = not judged. *)
 EXTENDS AtomSyntax, TraceLib
 VARIABLE l
 ObsSt(o) == [blocks |-> o.blocks, op |-> o.op, cat |-> o.cat, pkg |-> o.pkg, ver |-> o.ver, rev |-> o.rev, slot |-> o.slot,
@@ -18,8 +24,11 @@ Judge(e) ==
     LET p == Parse(e.chars, e.eapi) IN
     IF p.v = "Unspecified" THEN {"Unspecified"}
     ELSE IF p.v = "Reject" THEN (IF e.accepted THEN {"AcceptedInvalid_" \o p.why} ELSE {})
-    ELSE IF ~e.accepted THEN {"RejectedValid"}
+                                \cup (IF e.kls_accepted THEN {"AcceptedInvalidByEapiClass_" \o p.why} ELSE {})
+    ELSE IF ~e.accepted \/ ~e.kls_accepted
+         THEN (IF e.accepted THEN {} ELSE {"RejectedValid"}) \cup (IF e.kls_accepted THEN {} ELSE {"RejectedValidByEapiClass"})
     ELSE LET q == Parse(e.rendered, e.eapi) IN
+         (IF e.kls_equal THEN {} ELSE {"EapiClass_differs"}) \cup
          {"ParsedAttrs_" \o f : f \in Differ(ObsSt(e.attrs), p.st)}
          \cup (IF q.v = "Accept" /\ q.st = p.st THEN {} ELSE {"Render_faithful"})
          \cup (IF e.rt_ok THEN {} ELSE {"Roundtrip_reparse"})
